@@ -67,16 +67,22 @@ def check_hull(case, ctx):
                 ctx.label("find_ctrlpts-homogeneous")
             sets.append(("find_ctrlpts", flat))
         touch = False
+        readings = [("evaluate_single", got)]
+        if pdim <= 2:
+            # the documented second way to read the point: the zeroth derivative ("SKL[0][0] will be the surface point itself")
+            readings.append(("derivatives(order=0)", obj.derivatives(us[0], order=0)[0] if pdim == 1 else obj.derivatives(us[0], us[1], order=0)[0][0]))
         for name, pts in sets:
             for v in dirs:
                 nv = math.sqrt(_dot(v, v))
                 lo = min(_dot(v, p) for p in pts)
                 hi = max(_dot(v, p) for p in pts)
-                x = _dot(v, got)
                 tol = 1e-9 * big * nv
-                ctx.check(lo - tol <= x <= hi + tol, "outside-local-hull",
-                          "point at %r = %r projects to %r on direction %r, outside [%r, %r] of the %d active control points (%s)" % (
-                              us, got, x, v, lo, hi, len(pts), name))
+                for how, pt in readings:
+                    x = _dot(v, pt)
+                    ctx.check(lo - tol <= x <= hi + tol, "outside-local-hull",
+                              "point at %r = %r (%s) projects to %r on direction %r, outside [%r, %r] of the %d active control points (%s)" % (
+                                  us, pt, how, x, v, lo, hi, len(pts), name))
+                x = _dot(v, got)
                 touch = touch or abs(x - lo) <= 1e-6 * big * nv or abs(x - hi) <= 1e-6 * big * nv
         ctx.nt(touch, "on-a-hull-face")
     ctx.nt(build.varied_weights(d), "rational-varied")
